@@ -22,6 +22,46 @@ BENIGN_CLASS_STATE = {
 BENIGN_SELF_STATE = {}
 
 
+def constant_derived_locations(prog):
+    """Driver-object locations that are written while an experiment is processed, but only with values computed from locations that no
+    experiment ever writes (the reference, the run arguments that stay untouched, constants): a memo of run-constant data - whoever fills
+    it, and whenever, the content is the same, so it carries nothing from one experiment (or from a skipped stage) to the next."""
+    cls = prog.cls(DSP, "DatasetProcessor")
+    seq = carried.Linearizer(prog, cls).run("process_sample")
+    writes = {}
+    for loc, kind, uncond, f, st in seq:
+        if kind in ("write", "rmw"):
+            writes.setdefault(loc, []).append((kind, st))
+    import builtins
+    derived = set()
+    changed = True
+    while changed:
+        changed = False
+        for loc, ws in writes.items():
+            if loc in derived:
+                continue
+            ok = True
+            for kind, st in ws:
+                if kind != "write" or not isinstance(st, ast.Assign):
+                    ok = False
+                    break
+                lam = {a.arg for l in ast.walk(st.value) if isinstance(l, ast.Lambda) for a in l.args.args}
+                comp = {x.id for c in ast.walk(st.value) if isinstance(c, ast.comprehension) for x in ast.walk(c.target) if isinstance(x, ast.Name)}
+                for x in ast.walk(st.value):
+                    if isinstance(x, ast.Name) and x.id != "self" and x.id not in lam and x.id not in comp and not hasattr(builtins, x.id):
+                        ok = False
+                    if isinstance(x, ast.Attribute) and isinstance(x.value, ast.Name) and x.value.id == "self":
+                        src_loc = "self." + x.attr
+                        if src_loc != loc and src_loc in writes and src_loc not in derived:
+                            ok = False
+                    if isinstance(x, ast.Call) and isinstance(x.func, ast.Attribute) and isinstance(x.func.value, ast.Name) and x.func.value.id == "self":
+                        ok = False          # a method call may read anything
+            if ok:
+                derived.add(loc)
+                changed = True
+    return derived
+
+
 def s1_driver(prog, ctx):
     cls = prog.cls(DSP, "DatasetProcessor")
     # the loop
@@ -35,6 +75,7 @@ def s1_driver(prog, ctx):
     for loc, kind, uncond, f, st in seq:
         by_loc.setdefault(loc, []).append((kind, uncond, f, st))
     n = 0
+    const_derived = constant_derived_locations(prog)
     for loc in sorted(by_loc):
         acc = by_loc[loc]
         writes_any = [a for a in acc if a[0] in ("write", "rmw")]
@@ -57,6 +98,10 @@ def s1_driver(prog, ctx):
         if loc in BENIGN_SELF_STATE:
             ctx.ok("S1", "%s:%d" % (DSP, first[3].lineno), "%s carried but benign: %s" % (loc, BENIGN_SELF_STATE[loc]))
             continue
+        if loc in const_derived:
+            ctx.ok("S1", "%s:%d" % (DSP, first[3].lineno), "%s is written only with values computed from locations no experiment writes "
+                   "(a memo of run-constant data)" % loc)
+            continue
         kind, uncond, f, st = [a for a in acc if a[0] in ("read", "rmw")][0] if any(a[0] in ("read", "rmw") for a in acc) else first
         w = writes_any[0]
         ctx.fail("S1", st, f._qualname, src(st)[:110],
@@ -76,7 +121,7 @@ def driver_location_state(prog, loc):
     acc = [(kind, uncond, f, st) for l, kind, uncond, f, st in lin.run("process_sample") if l == loc]
     if not acc:
         return "absent", None
-    if not any(a[0] in ("write", "rmw") for a in acc):
+    if not any(a[0] in ("write", "rmw") for a in acc) or loc in constant_derived_locations(prog):
         return "constant", acc[0][3]
     for kind, uncond, f, st in acc:
         if kind == "write" and uncond:
